@@ -121,11 +121,11 @@ func runEncrypt(c cfg, pt []byte, dst io.Writer, stopAtError bool) (firstErr str
 		return "Encrypt", errors.New("nil writer with nil error")
 	}
 	if c.copy {
-		n, e := io.Copy(w, plainSource{bytes.NewReader(pt)})
+		// the count io.Copy returns is not a report: a caller that copies
+		// from a stream does not know how long it is (the tool does not look
+		// at it either)
+		_, e := io.Copy(w, plainSource{bytes.NewReader(pt)})
 		note("io.Copy", e)
-		if e == nil && n != int64(len(pt)) {
-			note("io.Copy", fmt.Errorf("short copy %d/%d with nil error", n, len(pt)))
-		}
 		if e != nil && stopAtError {
 			return
 		}
@@ -260,6 +260,7 @@ func dstSide(r *mon.Run) {
 		f    fault
 		stop bool
 		n, b int
+		kind int // index+1 into dstEndErrs when the error identity is fixed, 0: it rotates
 	}
 	var jobs []job
 	for _, c := range cfgs {
@@ -299,6 +300,18 @@ func dstSide(r *mon.Run) {
 			for _, once := range []bool{false, true} {
 				for _, partial := range []int{0, -1, -2, -3} {
 					jobs = append(jobs, job{c: c, f: fault{atCall: k, partial: partial, once: once}, stop: !once || partial != 0, n: n, b: b})
+				}
+			}
+		}
+		// a destination whose failure IS one of the end-of-data values (a
+		// channel or pipe whose other side closed returns a bare io.EOF from
+		// Write): every call of the smaller configurations, every identity
+		if n <= 40 {
+			for k := 0; k < n; k++ {
+				for _, once := range []bool{false, true} {
+					for ki := range dstEndErrs {
+						jobs = append(jobs, job{c: c, f: fault{atCall: k, once: once}, stop: !once, n: n, b: b, kind: ki + 1})
+					}
 				}
 			}
 		}
@@ -345,14 +358,17 @@ func dstSide(r *mon.Run) {
 
 	mon.Par(len(jobs), func(i int) {
 		j := jobs[i]
-		name := fmt.Sprintf("dst %s fault=%s stop=%v err=%s", j.c, j.f, j.stop, dstErrs[i%len(dstErrs)].name)
+		ek := dstErrs[i%len(dstErrs)]
+		if j.kind > 0 {
+			ek = dstEndErrs[j.kind-1]
+		}
+		name := fmt.Sprintf("dst %s fault=%s stop=%v err=%s", j.c, j.f, j.stop, ek.name)
 		r.Guard(name, func() {
 			pt := mon.DetBytes("c13-"+j.c.String(), max(j.c.size, 0))
 			fw := mon.NewFaultWriter()
 			fw.Once = j.f.once
 			// the identity of the error rotates: a writer may fail with a value
 			// that looks retryable (EAGAIN after a partial write, EINTR, a timeout)
-			ek := dstErrs[i%len(dstErrs)]
 			fw.Err = ek.err
 			r.Tab("dst_error_identity", ek.name)
 			if j.f.atCall >= 0 {
@@ -503,6 +519,15 @@ var dstErrs = []errKind{
 	{"ENOSPC", &os.PathError{Op: "write", Path: "out", Err: syscall.ENOSPC}},
 	{"temporary", temporaryErr{}},
 	{"custom", mon.ErrInjected},
+}
+
+// end-of-data values as the failure of a destination
+var dstEndErrs = []errKind{
+	{"EOF", io.EOF},
+	{"unexpectedEOF", io.ErrUnexpectedEOF},
+	{"closedPipe", io.ErrClosedPipe},
+	{"wrappedEOF", fmt.Errorf("verif: write: %w", io.EOF)},
+	{"os.ErrClosed", &os.PathError{Op: "write", Path: "out", Err: os.ErrClosed}},
 }
 
 func srcSide(r *mon.Run) {
